@@ -183,7 +183,7 @@ fn requests(inp: &Input, rng: &mut Rng, quick: bool, special: bool) -> Vec<(Opti
         }
     } else {
         rng.shuffle(&mut lists);
-        let budget = if quick { if n <= 4 { 30 } else { 12 } } else { 60 };
+        let budget = if quick { if n <= 4 { 30 } else { 12 } } else { 40 };
         for i in 0..budget {
             let mut a = lists[i % lists.len()].clone();
             rng.shuffle(&mut a);
@@ -267,11 +267,11 @@ pub fn run(_kind: &str, ctx: &Ctx, out: &mut dyn Write) {
     let mut rng = Rng::new(ctx.seed ^ 0x5eed_0008);
     let quick = ctx.tier != "thorough";
     let mut srcs: Vec<(Source, bool)> = sources(ctx, &mut rng).into_iter().map(|s| (s, false)).collect();
-    // thorough: the exhaustive n = 4 functions are sampled (1 in 16), everything else is kept
+    // thorough: the exhaustive n = 4 functions are sampled (1 in 64), everything else is kept
     if !quick {
         let mut kept = Vec::new();
         for (s, sp) in srcs.into_iter() {
-            if s.desc.starts_with("table n=4") && !rng.chance(1, 16) {
+            if s.desc.starts_with("table n=4") && !rng.chance(1, 64) {
                 continue;
             }
             kept.push((s, sp));
